@@ -89,6 +89,13 @@ pub struct World<'a> {
     /// external-key fault position used when an event says extfail (1-based call index)
     pub ext_fail_at: u32,
     pub atoms_used: HashMap<i64, Vec<u8>>,
+    /// "arbitrary call orders with shared RNGs": all calls draw from ONE generator, one after
+    /// the other, instead of one tape per call
+    pub shared_rng: Option<TapeRng>,
+    pub shared_rng_mode: bool,
+    /// messages travel through serde (decode native -> serde encode -> serde decode -> native)
+    pub msg_codec: Option<Codec>,
+    pub transport_problems: Vec<String>,
 }
 
 fn geti(e: &Value, k: &str) -> i64 {
@@ -143,6 +150,41 @@ impl<'a> World<'a> {
             tape_patch: HashMap::new(),
             ext_fail_at: 1,
             atoms_used: HashMap::new(),
+            shared_rng: None,
+            shared_rng_mode: false,
+            msg_codec: None,
+            transport_problems: Vec::new(),
+        }
+    }
+
+    pub fn use_shared_rng(&mut self) {
+        self.shared_rng = Some(TapeRng::new(self.run_seed, 777_777));
+        self.shared_rng_mode = true;
+    }
+
+    fn transport(&mut self, decoder: &str, bytes: Vec<u8>) -> Vec<u8> {
+        let Some(c) = self.msg_codec else { return bytes };
+        let suite = self.suite;
+        let r = catch_unwind(AssertUnwindSafe(|| match suite.to_serde(decoder, &bytes, c) {
+            Ok(enc) => Some(suite.from_serde(decoder, &enc, c)),
+            Err(_) => None, // not a valid message: the native decoder will refuse it
+        }));
+        match r {
+            Ok(None) => bytes,
+            Ok(Some(Ok(b2))) => {
+                if b2 != bytes {
+                    self.transport_problems.push(format!("{decoder}: transport through serde {:?} altered the message", c));
+                }
+                b2
+            }
+            Ok(Some(Err(e))) => {
+                self.transport_problems.push(format!("{decoder}: serde {:?} cannot decode its own encoding of a valid message: {e}", c));
+                bytes
+            }
+            Err(_) => {
+                self.transport_problems.push(format!("{decoder}: panic in serde transport"));
+                bytes
+            }
         }
     }
 
@@ -157,7 +199,11 @@ impl<'a> World<'a> {
         self.atoms_used.clear();
     }
 
-    fn rng(&self, tape: i64) -> TapeRng {
+    fn rng(&mut self, tape: i64) -> TapeRng {
+        if let Some(mut sh) = self.shared_rng.take() {
+            sh.draws.clear();
+            return sh;
+        }
         if let Some((other, off, len)) = self.tape_patch.get(&tape) {
             return TapeRng::patched(self.run_seed, tape, *other, *off, *len);
         }
@@ -295,6 +341,7 @@ impl<'a> World<'a> {
         let extfail = getb(e, "extfail");
         extkey::reset(if extfail { self.ext_fail_at } else { 0 });
         let mut o = self.step_inner(e);
+        o.problems.extend(self.transport_problems.drain(..));
         o.ksf_log = tksf::take_log();
         o.ext = extkey::stats();
         o
@@ -320,7 +367,10 @@ impl<'a> World<'a> {
                     Err(r) => o.res = r,
                 }
                 o.rng_bytes = rng.pos;
-                o.draws = rng.draws;
+                o.draws = rng.draws.clone();
+                if self.shared_rng_mode {
+                    self.shared_rng = Some(rng);
+                }
             }
             "SetupWithKey" => {
                 let mut rng = self.rng(geti(e, "tape"));
@@ -334,7 +384,10 @@ impl<'a> World<'a> {
                     Err(r) => o.res = r,
                 }
                 o.rng_bytes = rng.pos;
-                o.draws = rng.draws;
+                o.draws = rng.draws.clone();
+                if self.shared_rng_mode {
+                    self.shared_rng = Some(rng);
+                }
             }
             "SetupFromParts" => {
                 let bytes = self.cat(&getv(e, "parts"));
@@ -364,10 +417,14 @@ impl<'a> World<'a> {
                     Err(r) => o.res = r,
                 }
                 o.rng_bytes = rng.pos;
-                o.draws = rng.draws;
+                o.draws = rng.draws.clone();
+                if self.shared_rng_mode {
+                    self.shared_rng = Some(rng);
+                }
             }
             "SRegStart" => {
                 let req = self.req_arg(geti(e, "req"));
+                let req = self.transport("RegistrationRequest", req);
                 let cid = self.req_arg(geti(e, "cid"));
                 let st = self.setups.get(&id).expect("setup");
                 match guard(|| suite.sreg_start(st, &req, &cid)) {
@@ -381,6 +438,7 @@ impl<'a> World<'a> {
                 let mut rng = self.rng(geti(e, "tape"));
                 let pw = self.req_arg(geti(e, "pw"));
                 let msg = self.cat(&getv(e, "msg"));
+                let msg = self.transport("RegistrationResponse", msg);
                 let idu = self.arg(geti(e, "idu"));
                 let ids = self.arg(geti(e, "ids"));
                 let ksf = Self::ksf_arg(e);
@@ -395,10 +453,14 @@ impl<'a> World<'a> {
                     Err(r) => o.res = r,
                 }
                 o.rng_bytes = rng.pos;
-                o.draws = rng.draws;
+                o.draws = rng.draws.clone();
+                if self.shared_rng_mode {
+                    self.shared_rng = Some(rng);
+                }
             }
             "SRegFinish" => {
                 let msg = self.cat(&getv(e, "msg"));
+                let msg = self.transport("RegistrationUpload", msg);
                 match guard(|| suite.sreg_finish(&msg)) {
                     Ok(st) => {
                         let b = suite.ser(Kind::File, &st);
@@ -427,13 +489,17 @@ impl<'a> World<'a> {
                     Err(r) => o.res = r,
                 }
                 o.rng_bytes = rng.pos;
-                o.draws = rng.draws;
+                o.draws = rng.draws.clone();
+                if self.shared_rng_mode {
+                    self.shared_rng = Some(rng);
+                }
             }
             "SLogStart" => {
                 let mut rng = self.rng(geti(e, "tape"));
                 let recv = getv(e, "rec");
                 let file = if recv.is_empty() { None } else { Some(self.cat(&recv)) };
                 let msg = self.cat(&getv(e, "msg"));
+                let msg = self.transport("CredentialRequest", msg);
                 let cid = self.req_arg(geti(e, "cid"));
                 let ctx = self.arg(geti(e, "ctx"));
                 let idu = self.arg(geti(e, "idu"));
@@ -457,11 +523,15 @@ impl<'a> World<'a> {
                     Err(r) => o.res = r,
                 }
                 o.rng_bytes = rng.pos;
-                o.draws = rng.draws;
+                o.draws = rng.draws.clone();
+                if self.shared_rng_mode {
+                    self.shared_rng = Some(rng);
+                }
             }
             "CLogFinish" => {
                 let pw = self.req_arg(geti(e, "pw"));
                 let msg = self.cat(&getv(e, "msg"));
+                let msg = self.transport("CredentialResponse", msg);
                 let ctx = self.arg(geti(e, "ctx"));
                 let idu = self.arg(geti(e, "idu"));
                 let ids = self.arg(geti(e, "ids"));
@@ -479,6 +549,7 @@ impl<'a> World<'a> {
             }
             "SLogFinish" => {
                 let msg = self.cat(&getv(e, "msg"));
+                let msg = self.transport("CredentialFinalization", msg);
                 let st = self.srvs.get(&id).expect("server login state");
                 match guard(|| suite.slog_finish(st, &msg)) {
                     Ok(sk) => o.out = vec![sk],
